@@ -1512,6 +1512,20 @@ fn parse_unary_expression(tokens: &mut Tokens) -> Result<Expression, Error>
 						location,
 					})
 				}
+				Expression::BitIntegerLiteral {
+					value,
+					value_type,
+					location: _,
+				} if value == (i128::MAX as u128) + 1
+					&& !matches!(&value_type, Some(Ok(vt)) if !vt.is_signed()) =>
+				{
+					// 2^127 does not fit a signed literal, its negation does.
+					Ok(Expression::SignedIntegerLiteral {
+						value: i128::MIN,
+						value_type,
+						location,
+					})
+				}
 				expr =>
 				{
 					let expression = Expression::Unary {
